@@ -2437,6 +2437,13 @@ class Association(threading.Thread):
             self._handle_no_response()
             return Dataset(), None
 
+        # The reply is read from the response's *ActionReply* parameter
+        if not hasattr(rsp, "ActionReply"):
+            msg_type = rsp.__class__.__name__.replace("_", "-")
+            LOGGER.error(f"Received an unexpected {msg_type} message from the peer")
+            self.abort()
+            return Dataset(), None
+
         # Determine validity of the response and get the status
         status = self._check_received_status(rsp)
 
@@ -2672,6 +2679,13 @@ class Association(threading.Thread):
         # If `rsp` is None then the DIMSE timeout expired so abort
         if rsp is None:
             self._handle_no_response()
+            return Dataset(), None
+
+        # The reply is read from the response's *AttributeList* parameter
+        if not hasattr(rsp, "AttributeList"):
+            msg_type = rsp.__class__.__name__.replace("_", "-")
+            LOGGER.error(f"Received an unexpected {msg_type} message from the peer")
+            self.abort()
             return Dataset(), None
 
         # Determine validity of the response and get the status
@@ -3004,6 +3018,13 @@ class Association(threading.Thread):
             self._handle_no_response()
             return Dataset(), None
 
+        # The reply is read from the response's *EventReply* parameter
+        if not hasattr(rsp, "EventReply"):
+            msg_type = rsp.__class__.__name__.replace("_", "-")
+            LOGGER.error(f"Received an unexpected {msg_type} message from the peer")
+            self.abort()
+            return Dataset(), None
+
         # Determine validity of the response and get the status
         status = self._check_received_status(rsp)
 
@@ -3209,6 +3230,13 @@ class Association(threading.Thread):
         # If `rsp` is None then the DIMSE timeout expired so abort
         if rsp is None:
             self._handle_no_response()
+            return Dataset(), None
+
+        # The reply is read from the response's *AttributeList* parameter
+        if not hasattr(rsp, "AttributeList"):
+            msg_type = rsp.__class__.__name__.replace("_", "-")
+            LOGGER.error(f"Received an unexpected {msg_type} message from the peer")
+            self.abort()
             return Dataset(), None
 
         # Determine validity of the response and get the status
@@ -3459,6 +3487,13 @@ class Association(threading.Thread):
         # If `rsp` is None then the DIMSE timeout expired so abort
         if rsp is None:
             self._handle_no_response()
+            return Dataset(), None
+
+        # The reply is read from the response's *AttributeList* parameter
+        if not hasattr(rsp, "AttributeList"):
+            msg_type = rsp.__class__.__name__.replace("_", "-")
+            LOGGER.error(f"Received an unexpected {msg_type} message from the peer")
+            self.abort()
             return Dataset(), None
 
         # Determine validity of the response and get the status
